@@ -7,8 +7,17 @@ A function body is executed on *terms*:
     variable ...).  Terms are hash-consed: two values are the same term iff their keys are equal, whatever local
     names, temporaries, helper functions, keyword/positional call style or def/lambda spelling produced them;
   * repository functions, nested defs and lambdas are *inlined* (closures see the enclosing frame's current
-    variables, like Python's late binding); callees in the `opaque` set, parameters used as functions and external
-    functions stay opaque call terms;
+    variables, like Python's late binding; default values `lambda d, x=x: ...` and `functools.partial(f, a, b)` freeze their
+    values where the function value is made); callees in the `opaque` set, parameters used as functions and external
+    functions stay opaque call terms -- the application of a deliberately opaque repository function (a sub-solver) is ONE
+    unknown, its argument trees are not pushed outside; a call that could not be inlined because of a limit of this executor
+    (unbindable arguments, recursion, depth) is an application of `unk`: a value that is NOT understood;
+  * records (namedtuples, `_replace`, a NamedTuple read as a tuple), tuples with constant indices / slices, dict displays
+    used for dispatch (`{True: f, False: g}[flag]`, `.get`), `(a, b)[flag]`, plain classes (instances are objects with
+    attribute cells; methods and `__call__` are inlined with `self` bound), `setattr` / `getattr` with literal names,
+    `np.where` as min / max / clamp, `np.clip` (also `x.clip`, `*bounds.T`, constant limits = scalar cap), `.T` /
+    `[..., k]` columns, `sum(v*v)` as `v@v`, bracketing root finders (`brentq` ...: some scalar of the bracket) are modelled;
+    methods of array values without a model are `unk` applications;
   * `if` merges build `ite(cond, a, b)` decision trees (a negated test swaps the branches, an early `return`/`raise`
     simply adds the test to the path condition of what follows), arithmetic distributes over the trees, the
     path condition of every event is recorded;
@@ -16,7 +25,13 @@ A function body is executed on *terms*:
     initial value and its back-edge value to (i) the same term, (ii) K + phiF where phiF is "some point of the box"
     when every case is K + a convex combination of box points, (iii) a relational invariant `init[u := head(u)]`
     (e.g. o == objective.value(x)) that is then verified inductively, or (iv) an opaque per-iteration unknown phi.
-    The body is re-executed until the head values are stable; only the events of the last pass are kept.
+    The body is re-executed until the head values are stable; only the events of the last pass are kept (plus, per loop, the
+    events of the first pass, which ran on the exact initial values).  A carried variable that holds a record / tuple is carried
+    component by component (virtual variables `state.z`, `carry[0]`, also as assign events).  After the loop the normal exit
+    (for a `for` loop with breaks under the unknown condition `exhausted`; the `else:` block runs only there) is merged with the
+    `break` exits.
+  * `understood(t)`: no part of t is a value without a model (`unk`, external library results, comprehensions, in-place
+    updates, globals ...).  The rules may call something REFUTED only on understood terms without loop-carried unknowns.
 
 Nothing of the analysed library is imported or run; the executor only rewrites syntax trees into terms.
 """
@@ -99,7 +114,7 @@ UNBOUND = mk("unbound")
 
 
 def is_num(t):
-    return t.k == "num" or t.k not in ("const", "tup", "fn", "rec", "ntctor", "ite", "unbound", "list", "slice") + BOOL_KINDS
+    return t.k == "num" or t.k not in ("const", "tup", "fn", "rec", "ntctor", "ite", "unbound", "list", "slice", "partial", "dict", "cls", "obj", "bound") + BOOL_KINDS
 
 
 def poly(t) -> Poly:
@@ -399,6 +414,43 @@ def clamp(v, lo, hi):
     return lift(lambda a, b, c: mk("clamp", a, b, c), v, lo, hi)
 
 
+def inf_sign(t):
+    """+1 / -1 when t is +inf / -inf (numpy.inf, math.inf, float('inf'), their negatives), else None"""
+    if t.k == "const" and t.a[0] in ("inf", "+inf", "Infinity"):
+        return 1
+    if t.k == "const" and t.a[0] in ("-inf", "-Infinity"):
+        return -1
+    if t.k == "ext" and t.a[0].split(".")[-1] in ("inf", "Inf", "infty", "Infinity", "PINF"):
+        return 1
+    if t.k == "ext" and t.a[0].split(".")[-1] == "NINF":
+        return -1
+    if t.k == "num" and len(t.a[0].t) == 1:
+        (m, c), = t.a[0].t.items()
+        if len(m) == 1 and m[0][1] == 1 and c in (1, -1):
+            s0 = inf_sign(_BYKEY[m[0][0]])
+            return None if s0 is None else s0 * int(c)
+    return None
+
+
+def _free_bound(t):
+    """an absent or constant limit of a clip (None, a number, +-inf): the clip is then a scalar cap, not a projection onto a box of the program"""
+    return t is NONE or const_of(t) is not None or inf_sign(t) is not None
+
+
+def clip_(v, lo, hi):
+    """numpy.clip: a box projection clamp(v, lo, hi); with an absent / constant limit a cap min / max"""
+    def f(a, l, h):
+        if _free_bound(l) or _free_bound(h):
+            r = a
+            if h is not NONE and inf_sign(h) != 1:
+                r = min_(r, h)
+            if l is not NONE and inf_sign(l) != -1:
+                r = max_(l, r)
+            return r
+        return mk("clamp", a, l, h)
+    return lift(f, v, lo, hi)
+
+
 def sqrt_(x):
     def f(a):
         if a.k == "dot" and a.a[0].key == a.a[1].key:
@@ -424,6 +476,8 @@ def col(base, k):
     def f(b):
         if b.k == "colstack" and isinstance(k, int) and 0 <= k < len(b.a[0]):
             return b.a[0][k]
+        if b.k == "transposed" and b.a[0].k == "rowstack" and isinstance(k, int) and 0 <= k < len(b.a[0].a[0]):
+            return b.a[0].a[0][k]
         return mk("col", b, k)
     return lift(f, base)
 
@@ -431,6 +485,12 @@ def col(base, k):
 def item(base, i):
     def f(b):
         if b.k in ("tup", "list") and isinstance(i, int) and -len(b.a[0]) <= i < len(b.a[0]):
+            return b.a[0][i]
+        if b.k == "rec" and isinstance(i, int) and -len(b.a[1]) <= i < len(b.a[1]):
+            return b.a[1][i][1]             # a NamedTuple is a tuple of its fields
+        if b.k == "transposed" and isinstance(i, int):
+            return col(b.a[0], i)           # row i of A.T is column i of A
+        if b.k == "rowstack" and isinstance(i, int) and 0 <= i < len(b.a[0]):
             return b.a[0][i]
         return mk("item", b, i)
     return lift(f, base)
@@ -449,7 +509,7 @@ def truth(v):
             return TRUE if c != 0 else FALSE
         if a.k in ("tup", "list"):
             return TRUE if a.a[0] else FALSE
-        if a.k == "fn":
+        if a.k in ("fn", "partial", "cls", "bound"):
             return TRUE
         return mk("truth", a)
     return lift(f, v)
@@ -608,8 +668,11 @@ def alternatives(c, pol=True, limit=64):
     if c.k == "bt" or c.k == "ite":
         tree = c.a[0] if c.k == "bt" else c
         out = []
+        # the tree-valued test itself is a literal of every scenario it opens into (values that were split on it are then
+        # restricted by it)
+        own = [(mk("bt", tree), pol)]
         for (conds, leaf) in leaves(tree):
-            pre = [[]]
+            pre = [list(own)]
             for (cc, pp) in conds:
                 pre = [x + y for x in pre for y in alternatives(cc, pp, limit)]
             for x in pre:
@@ -712,7 +775,11 @@ def rebuild(k, a):
 
 
 def lift_call(f, args, kws):
-    """Opaque call term with decision trees in callee / arguments pushed outside."""
+    """Opaque call term with decision trees in callee / arguments pushed outside.  The application of a repository function that
+    is deliberately kept opaque (a sub-solver) is ONE unknown whatever cases its arguments have: its argument trees stay inside
+    (nothing downstream is then split on how the arguments were obtained)."""
+    if f.k == "fn":
+        return mk("call", f, tuple(args), tuple(kws))
     vals = [f] + list(args) + [v for (_, v) in kws]
 
     def g(*xs):
@@ -769,6 +836,8 @@ def _interval0(t, assume_nonneg=None, facts=()):
                     l, h = min(cands), max(cands)
             lo, hi = lo + l, hi + h
         return lo, hi
+    if inf_sign(t) is not None and k != "num":
+        return (INF, INF) if inf_sign(t) > 0 else (-INF, -INF)
     if k == "const":
         if isinstance(t.a[0], bool):
             return Fraction(int(t.a[0])), Fraction(int(t.a[0]))
@@ -792,6 +861,9 @@ def _interval0(t, assume_nonneg=None, facts=()):
         return min(al, bl), max(ah, bh)
     if k in ("norm", "sqrt", "abs"):
         return Fraction(0), INF
+    if k == "root":
+        (al, ah), (bl, bh) = interval(t.a[1], None, facts), interval(t.a[2], None, facts)
+        return min(al, bl), max(ah, bh)
     if k == "dot" and t.a[0].key == t.a[1].key:
         return Fraction(0), INF
     if assume_nonneg is not None:
@@ -820,10 +892,30 @@ def has_unk(t):
 
 
 def _not_understood(a):
-    """atoms the executor has no model for (results of external library calls, comprehensions, in-place updates ...)"""
-    if a.k in ("unk", "opq", "bin", "un", "upd", "sub", "glob", "mod"):
-        return True
-    return a.k == "call" and a.a[0].k in ("ext", "glob", "unk")
+    """atoms the executor has no model for (results of external library calls, comprehensions, in-place updates, applications of
+    repository functions that could not be inlined, methods of array values ...)"""
+    if a.k in ("unk", "opq", "bin", "un", "upd", "sub", "glob", "mod", "slice", "transposed", "pow"):
+        return a.k != "pow" or const_of(a.a[1]) is None
+    return a.k == "call" and a.a[0].k in ("ext", "glob", "unk", "mod", "dict", "partial", "const", "tup", "list")
+
+
+def understood(*ts):
+    """No part of these terms is a value the executor has no model for.  (Applications of function-valued parameters, of methods of
+    parameter objects and of repository functions deliberately kept opaque ARE understood: they are unknowns of the analysed code,
+    not gaps of the analysis.)"""
+    return not any(t is not None and mentions(t, _not_understood) for t in ts)
+
+
+def no_carried_unknown(*ts):
+    """No loop-carried unknown (a variable for which the induction over a loop found no invariant) occurs in these terms."""
+    return not any(t is not None and mentions(t, lambda a: a.k == "phi") for t in ts)
+
+
+def _carried_unknown(a):
+    """a loop-carried unknown, or a component (field / item) of one"""
+    while a.k in ("attr", "item", "sub", "col") and isinstance(a.a[0], T):
+        a = a.a[0]
+    return a.k == "phi"
 
 
 class Convexity:
@@ -865,9 +957,13 @@ def convex(t, extra_feasible=(), facts=()) -> Convexity:
         if b is not None:
             boxes[(b[0].key, b[1].key)] = b
     if r.loose:
-        if all(mentions(x, _not_understood) for x in r.loose):
-            r.unknown = True
+        if any(mentions(x, _not_understood) for x in r.loose):
+            r.unknown = True        # a component without a model may hide anything (also a projection)
         carried = [x for x in r.loose if mentions(x, lambda a: a.k == "phi")]
+        # a loop-carried unknown (a variable for which the induction found no invariant) as a factor of a component: what the
+        # component is has not been derived, only that this analysis could not describe it
+        if any(_carried_unknown(_BYKEY[a]) for x in r.loose for a in poly(x).atoms()):
+            r.unknown = True
         r.why = "component(s) " + ", ".join(f"`{brief(x, 70, 2)}`" for x in r.loose[:2]) + (" ..." if len(r.loose) > 2 else "") + \
             " are not box projections" + (" (a loop-carried value for which no box invariant holds)" if carried else "")
         return r
@@ -886,7 +982,7 @@ def convex(t, extra_feasible=(), facts=()) -> Convexity:
         return r
     for fa, w in r.weights.items():
         lo, hi = interval(num(w), r.assumed, facts)
-        if (lo < 0 or hi > 1) and mentions(num(w), _not_understood):
+        if (lo < 0 or hi > 1) and mentions(num(w), lambda a: _not_understood(a) or a.k == "phi"):
             r.unknown = True
         if lo < 0 or hi > 1:
             r.why = f"the weight `{brief(num(w), 100, 2)}` of the box point `{brief(_BYKEY[fa], 60, 2)}` ranges over [{_fmt(lo)}, {_fmt(hi)}], not within [0, 1]"
@@ -964,6 +1060,8 @@ def show(t, depth=0) -> str:
         return f"<{'box point ' if k == 'phiF' else ''}{a[1]} at the head of loop {a[0][1] if isinstance(a[0], tuple) and len(a[0]) > 1 else a[0]}>"
     if k == "feas":
         return str(a[0])
+    if k == "root":
+        return f"<root of {S(a[0])} in [{S(a[1])}, {S(a[2])}]>"
     if k == "iter":
         return "<loop index>"
     if k == "unk":
@@ -974,6 +1072,56 @@ def show(t, depth=0) -> str:
 
 
 # ====================================================================== executor
+
+def shape_of(v):
+    """('rec', constructor, field names, n) / ('tup', n) when every case of v is a record of one constructor / a tuple of one length
+    (a *structured* value whose components are tracked separately through loops), else None."""
+    if v is None or v is UNBOUND:
+        return None
+    ls = [l for (_, l) in leaves(v)]
+    if all(l.k == "rec" for l in ls) and len({(l.a[0], tuple(f for f, _ in l.a[1])) for l in ls}) == 1 and ls[0].a[1]:
+        return ("rec", ls[0].a[0], tuple(f for f, _ in ls[0].a[1]), ls[0].a[2])
+    if all(l.k == "tup" for l in ls) and len({len(l.a[0]) for l in ls}) == 1 and ls[0].a[0]:
+        return ("tup", len(ls[0].a[0]))
+    return None
+
+
+def components(name, sh):
+    """[(virtual variable name, selector)] of a structured variable: `state.z` for a record field, `state[1]` for a tuple item."""
+    if sh[0] == "rec":
+        return [(f"{name}.{f}", f) for f in sh[2]]
+    return [(f"{name}[{i}]", i) for i in range(sh[1])]
+
+
+def component(v, sel):
+    """field / item `sel` of the structured value v (cases pushed outside)."""
+    if isinstance(sel, int):
+        return item(v, sel)
+
+    def f(b):
+        if b.k == "rec":
+            for (fn, x) in b.a[1]:
+                if fn == sel:
+                    return x
+        return mk("attr", b, sel)
+    return lift(f, v)
+
+
+def var_value(vars_, name):
+    """value of a variable of an environment by (possibly virtual) name: `x`, `state.x`, `carry[0]`."""
+    v = vars_.get(name)
+    if v is not None or not isinstance(name, str):
+        return v
+    if name.endswith("]") and "[" in name:
+        base, _, idx = name[:-1].rpartition("[")
+        b = var_value(vars_, base)
+        return None if b is None or not idx.lstrip("-").isdigit() else component(b, int(idx))
+    if "." in name:
+        base, _, f = name.rpartition(".")
+        b = var_value(vars_, base)
+        return None if b is None else component(b, f)
+    return None
+
 
 class Env:
     __slots__ = ("vars", "pc", "log")
@@ -1028,10 +1176,24 @@ class Interp:
         self._fid = 0
         self._modconst = {}
         self.notes = []
+        self.classes = {}           # key of a class term -> class Scope (plain classes: instances are objects with attribute cells)
+        self.compacted = {}         # key of a value abstracted at a merge (K + `some box point`) -> the cases it abstracts
+        self.notes_soft = []        # calls that could not be inlined (their results are `unk` applications)
 
     # ------------------------------------------------------------------ entry points
-    def fn_term(self, scope, frame=None):
-        t = mk("fn", scope.qualname, frame.id if frame is not None else 0)
+    def fn_term(self, scope, frame=None, env=None):
+        """Function value.  The default values of a nested def / lambda are evaluated where it is created (`lambda d, x=x: ...` freezes
+        x) and are part of the value."""
+        defaults = ()
+        if frame is not None and env is not None and scope.kind in ("function", "lambda"):
+            ds = []
+            for p in scope.params() + scope.kwonly():
+                d = scope.default_of(p)
+                if d is not None:
+                    ds.append((p, self.eval(d, env, frame)))
+            defaults = tuple(ds)
+        t = mk("fn", scope.qualname, frame.id if frame is not None else 0, defaults) if defaults else \
+            mk("fn", scope.qualname, frame.id if frame is not None else 0)
         self.closures[t.key] = (scope, frame)
         return t
 
@@ -1090,9 +1252,11 @@ class Interp:
             cur.log = final.log
         return res, fr
 
-    def bind(self, scope, args, kws, frame, env):
-        """param -> term for a call of `scope`; None when the call cannot be bound statically."""
+    def bind(self, scope, args, kws, frame, env, frozen=()):
+        """param -> term for a call of `scope`; None when the call cannot be bound statically.  frozen: default values evaluated
+        when the function value was created."""
         ps = scope.params()
+        frozen = dict(frozen)
         if len(args) > len(ps) or scope.has_varargs() or scope.has_kwargs():
             return None
         m = dict(zip(ps, args))
@@ -1102,11 +1266,20 @@ class Interp:
             m[n] = v
         for p in ps + scope.kwonly():
             if p not in m:
+                if p in frozen:
+                    m[p] = frozen[p]
+                    continue
                 d = scope.default_of(p)
                 if d is None:
                     return None
                 m[p] = self._eval_in_scope(d, scope.parent)
         return m
+
+    def _class_of(self, obj):
+        for k, sc in self.classes.items():
+            if sc.qualname == obj.a[0]:
+                return sc
+        return None
 
     def _eval_in_scope(self, expr, scope):
         """Evaluate an expression that lives in `scope` outside any running frame (defaults, module constants)."""
@@ -1133,6 +1306,8 @@ class Interp:
             # a tree of tuples -> a tuple of trees
             return mk("tup", tuple(self.compact(item(v, i), label, f"{name}[{i}]") for i in range(len(cases[0].a[0]))))
         r = _box_generalize(cases, ("J",) + tuple(label), name, None, [cs for (cs, _) in cl])
+        if r is not None:
+            self.compacted[r.key] = list(cases)
         return r if r is not None else v
 
     def join(self, envs, base_pc, extra=(), label=("?",)):
@@ -1236,6 +1411,13 @@ class Interp:
             old = env.vars.get(target.id, UNBOUND)
             env.vars[target.id] = value
             self.event("assign", fr, st, env, name=target.id, value=value, old=old)
+            sh = shape_of(value)
+            if sh is not None:
+                # the components of a record / tuple held by one variable are variables of their own (`state.z`, `carry[0]`)
+                osh = shape_of(old)
+                for (vn, sel) in components(target.id, sh):
+                    self.event("assign", fr, st, env, name=vn, value=component(value, sel),
+                               old=component(old, sel) if osh == sh else UNBOUND, virtual=True)
         elif isinstance(target, (ast.Tuple, ast.List)):
             for i, e in enumerate(target.elts):
                 if isinstance(e, ast.Starred):
@@ -1313,7 +1495,7 @@ class Interp:
             return self.loop(st, env, fr)
         if isinstance(st, (ast.FunctionDef, ast.AsyncFunctionDef)):
             sc = self.repo.scope_of(st)
-            env.vars[st.name] = self.fn_term(sc, fr) if sc is not None else mk("unk", "def", st.name)
+            env.vars[st.name] = self.fn_term(sc, fr, env) if sc is not None else mk("unk", "def", st.name)
             return env
         if isinstance(st, ast.Break):
             if fr.loops:
@@ -1384,24 +1566,55 @@ class Interp:
         if isinstance(st, ast.For):
             names += [n for n in _target_names(st.target) if n not in names]
         init_env = env
-        keys = list(names)
+        # a carried variable that holds a record / tuple is carried component by component (virtual variables `state.z`, `carry[0]`)
+        virt, shapes = {}, {}
+        keys = []
+        for k in names:
+            sh = shape_of(env.vars.get(k))
+            if sh is not None:
+                shapes[k] = sh
+                for (vn, sel) in components(k, sh):
+                    virt[vn] = (k, sel)
+                    keys.append(vn)
+            else:
+                keys.append(k)
+
+        def value_of(vars_, k, default=UNBOUND):
+            if k in virt:
+                b = vars_.get(virt[k][0])
+                return component(b, virt[k][1]) if b is not None and b is not UNBOUND else UNBOUND
+            return vars_.get(k, default)
+
+        def assemble(b, vals):
+            sh = shapes[b]
+            if sh[0] == "rec":
+                return mk("rec", sh[1], tuple((f, vals[f"{b}.{f}"]) for f in sh[2]), sh[3])
+            return mk("tup", tuple(vals[f"{b}[{i}]"] for i in range(sh[1])))
         head = {}
         status = {}
         relcand = {}
         links = None
         for k in keys:
-            head[k] = env.vars.get(k, UNBOUND)
+            head[k] = value_of(env.vars, k)
             status[k] = "same"
         final = None
-        for rnd in range(10):
+        rnd = -1
+        budget = 10
+        while budget > 0:
+            budget -= 1
+            rnd += 1
             force = rnd >= 7
             mark_e, mark_r = len(self.events), len(fr.returns)
             e = env.copy()
             for k, v in head.items():
+                if k in virt:
+                    continue
                 if v is not UNBOUND:
                     e.vars[k] = v
                 else:
                     e.vars.pop(k, None)
+            for b in shapes:
+                e.vars[b] = assemble(b, head)
             exit_env = e
             if isinstance(st, ast.For):
                 itv = self.eval(st.iter, e, fr)
@@ -1426,6 +1639,23 @@ class Interp:
             backs = [x for x in [out] + L.continues if x is not None]
             if backs:
                 back_env = self.join(backs, e.pc, label=fr.ctxkey + (getattr(st, "lineno", 0), "back"))
+                lost = [b for b in shapes if shape_of(back_env.vars.get(b)) != shapes[b]]
+                if lost:
+                    # the variable does not keep its structure over an iteration: carry it as one value, start again
+                    for b in lost:
+                        for (vn, _) in components(b, shapes[b]):
+                            virt.pop(vn, None)
+                            head.pop(vn, None)
+                            status.pop(vn, None)
+                            keys.remove(vn)
+                        del shapes[b]
+                        keys.append(b)
+                        head[b] = env.vars.get(b, UNBOUND)
+                        status[b] = "same"
+                    del self.events[mark_e:]
+                    del fr.returns[mark_r:]
+                    rnd, links, relcand = -1, None, {}
+                    continue
                 # cells first assigned inside the body are carried too
                 for k in back_env.vars:
                     if isinstance(k, tuple) and k not in head and back_env.vars[k].key != env.vars.get(k, self._cell_default(k)).key:
@@ -1433,8 +1663,8 @@ class Interp:
                         status[k] = "same"
                         keys.append(k)
                 newhead, newstatus = {}, {}
-                init = {k: init_env.vars.get(k, self._cell_default(k) if isinstance(k, tuple) else UNBOUND) for k in keys}
-                back = {k: back_env.vars.get(k, init[k]) for k in keys}
+                init = {k: value_of(init_env.vars, k, self._cell_default(k) if isinstance(k, tuple) else UNBOUND) for k in keys}
+                back = {k: (value_of(back_env.vars, k, init[k]) if k not in virt else value_of(back_env.vars, k)) for k in keys}
                 # carried variables that differ by a loop-invariant amount (xNew == x + z) are generalised together
                 def numeric(k):
                     return init[k] is not UNBOUND and all(is_num(l) and l.k not in ("unk", "unbound") for (_, l) in leaves(init[k]) + leaves(back[k]))
@@ -1499,22 +1729,31 @@ class Interp:
             else:
                 stable = True
                 newhead, newstatus = dict(head), dict(status)
-            after = [x for x in [exit_env] + L.breaks if x is not None]
             if stable:
                 rec.head, rec.status = dict(head), dict(newstatus if backs else status)
-                final = self.join(after, env.pc, label=fr.ctxkey + (getattr(st, "lineno", 0), "exit")) if after else None
+                for b in shapes:
+                    rec.head[b], rec.status[b] = assemble(b, head), "structured"
+                final = self._loop_exit(st, env, fr, exit_env, L, label)
                 break
             head, status = newhead, newstatus
             del self.events[mark_e:]
             del fr.returns[mark_r:]
         else:
             self.notes.append(f"loop at {fr.scope.qualname}:{getattr(st, 'lineno', 0)} did not stabilise")
-            final = self.join(after, env.pc, label=fr.ctxkey + (getattr(st, "lineno", 0), "exit")) if after else None
+            final = self._loop_exit(st, env, fr, exit_env, L, label)
         self.loops[key] = rec
         rec.label = label
-        if final is not None and st.orelse:
-            final = self.block(st.orelse, final, fr)
         return final
+
+    def _loop_exit(self, st, env, fr, exit_env, L, label):
+        """State after the loop: the normal exit (iterator exhausted / test false; the `else:` block runs only there) merged with the
+        `break` exits.  The exhaustion of a `for` loop is an unknown condition of its own when there are breaks."""
+        if exit_env is not None and isinstance(st, ast.For) and L.breaks:
+            exit_env = exit_env.copy([(mk("truth", mk("exhausted", label)), True)])
+        if exit_env is not None and st.orelse:
+            exit_env = self.block(st.orelse, exit_env, fr)
+        after = [x for x in [exit_env] + L.breaks if x is not None]
+        return self.join(after, env.pc, label=fr.ctxkey + (getattr(st, "lineno", 0), "exit")) if after else None
 
     def generalize(self, label, k, init, back, force, rec):
         """Head value of a carried variable from its initial and back-edge values -> (term, status)."""
@@ -1569,6 +1808,9 @@ class Interp:
             res = mk("mod", vals[0].module.name)
         elif len(vals) == 1 and isinstance(vals[0], NamedTupleVal):
             res = mk("ntctor", vals[0].name, tuple(vals[0].fields))
+        elif len(vals) == 1 and isinstance(vals[0], ClassVal) and _plain_class(vals[0].scope):
+            res = mk("cls", vals[0].scope.qualname)
+            self.classes[res.key] = vals[0].scope
         else:
             # module-level constant?
             s, bs = self.repo.lookup(name, scope)
@@ -1648,15 +1890,28 @@ class Interp:
         if isinstance(e, ast.Subscript):
             base = self.eval(e.value, env, fr)
             s = e.slice
-            if isinstance(s, ast.Tuple) and len(s.elts) == 2 and isinstance(s.elts[0], ast.Slice) and s.elts[0].lower is None \
-                    and s.elts[0].upper is None and s.elts[0].step is None:
+            if isinstance(s, ast.Tuple) and len(s.elts) == 2 and (
+                    (isinstance(s.elts[0], ast.Slice) and s.elts[0].lower is None and s.elts[0].upper is None and s.elts[0].step is None)
+                    or (isinstance(s.elts[0], ast.Constant) and s.elts[0].value is Ellipsis)):
                 k = self.eval(s.elts[1], env, fr)
                 ck = const_of(k)
                 return col(base, int(ck) if ck is not None and ck.denominator == 1 else k)
             idx = self.eval(s, env, fr)
+            if base.k == "dict":
+                return dict_lookup(base, idx, None)
+            if idx.k == "slice":
+                # a constant slice of a tuple / list display
+                parts = [None if x is NONE else const_of(x) for x in idx.a[0]]
+                if all(x is NONE or (const_of(x) is not None and const_of(x).denominator == 1) for x in idx.a[0]):
+                    sl = slice(*[None if q is None else int(q) for q in parts])
+                    if all(l.k in ("tup", "list") for (_, l) in leaves(base)):
+                        return lift(lambda b: mk(b.k, tuple(b.a[0][sl])), base)
             ci = const_of(idx)
-            if ci is not None and ci.denominator == 1:
+            if ci is not None and ci.denominator == 1 and not (idx.k == "const" and isinstance(idx.a[0], bool)):
                 return item(base, int(ci))
+            if base.k in ("tup", "list") and len(base.a[0]) == 2 and _boolish(idx):
+                # (a, b)[flag]: a boolean index selects item 1 when true
+                return ite(_atomic(truth(idx)), base.a[0][1], base.a[0][0])
             return lift(lambda b, i: mk("sub", b, i), base, idx)
         if isinstance(e, ast.Slice):
             parts = [self.eval(x, env, fr) if x is not None else NONE for x in (e.lower, e.upper, e.step)]
@@ -1666,9 +1921,11 @@ class Interp:
             if len(vals) != len(e.elts):
                 return mk("unk", "starred display")
             return mk("tup" if isinstance(e, ast.Tuple) else "list", tuple(vals))
+        if isinstance(e, ast.Dict) and e.keys and all(k is not None for k in e.keys):
+            return mk("dict", tuple((self.eval(k, env, fr), self.eval(v, env, fr)) for k, v in zip(e.keys, e.values)))
         if isinstance(e, ast.Lambda):
             sc = self.repo.scope_of(e)
-            return self.fn_term(sc, fr) if sc is not None else mk("unk", "lambda")
+            return self.fn_term(sc, fr, env) if sc is not None else mk("unk", "lambda")
         if isinstance(e, ast.NamedExpr):
             v = self.eval(e.value, env, fr)
             self.assign(e.target, v, env, fr, e)
@@ -1704,8 +1961,22 @@ class Interp:
                 for (fn, v) in b.a[1]:
                     if fn == name:
                         return v
+            if b.k == "obj":
+                csc = self._class_of(b)
+                msc = _method(csc, name) if csc is not None else None
+                if msc is not None:
+                    return mk("bound", b, self.fn_term(msc))
+                if csc is not None:
+                    bs = csc.bindings.get(name) or []
+                    if len(bs) == 1 and bs[0].kind == "assign" and bs[0].value is not None and bs[0].index is None:
+                        return self._eval_in_scope(bs[0].value, csc)
+                return mk("unk", "attribute of an object that was never assigned", name)
             if b.k == "rowstack" and name == "T":
                 return mk("colstack", b.a[0])
+            if name == "T" and b.k == "transposed":
+                return b.a[0]
+            if name == "T" and is_num(b) and b.k != "num":
+                return mk("transposed", b)
             if b.k == "ext":
                 return mk("ext", b.a[0] + "." + name)
             if b.k == "mod":
@@ -1722,7 +1993,15 @@ class Interp:
         bad = False
         for a in e.args:
             if isinstance(a, ast.Starred):
-                bad = True
+                sv = self.eval(a.value, env, fr)
+                if sv.k in ("tup", "list"):
+                    args.extend(sv.a[0])
+                elif sv.k == "rec":
+                    args.extend(v for (_, v) in sv.a[1])
+                elif sv.k in ("transposed", "rowstack") and fv.k == "ext" and fv.a[0].split(".")[-1] == "clip" and len(e.args) == 2 and not e.keywords:
+                    args.extend([item(sv, 0), item(sv, 1)])     # clip(x, *bounds.T): the two rows are the limits
+                else:
+                    bad = True
                 continue
             args.append(self.eval(a, env, fr))
         for k in e.keywords:
@@ -1736,18 +2015,36 @@ class Interp:
 
     def apply(self, fv, args, kws, node, env, fr):
         if fv.k == "ite":
+            # a conditional callee: each alternative runs under its own condition (effects -- attribute cells, the must-log of
+            # calls -- are merged with that condition as guard)
             c, a, b = fv.a
-            ra = self.apply(a, args, kws, node, env, fr)
-            rb = self.apply(b, args, kws, node, env, fr)
+            ea, eb = env.copy([(c, True)]), env.copy([(c, False)])
+            saved = fr.cur
+            fr.cur = ea
+            ra = self.apply(a, args, kws, node, ea, fr)
+            fr.cur = eb
+            rb = self.apply(b, args, kws, node, eb, fr)
+            fr.cur = saved
+            j = self.join([ea, eb], env.pc, label=fr.ctxkey + (getattr(node, "lineno", 0), getattr(node, "col_offset", 0), "callee"))
+            env.vars.clear()
+            env.vars.update(j.vars)
+            env.log.clear()
+            env.log.update(j.log)
             return ite(c, ra, rb)
         if fv.k == "fn":
             scope, defframe = self.closures[fv.key]
-            m = self.bind(scope, args, kws, fr, env)
+            m = self.bind(scope, args, kws, fr, env, fv.a[2] if len(fv.a) > 2 else ())
             active = any(f.scope is scope for f in self.stack)
-            if m is None or id(scope) in self.opaque or len(self.stack) >= self.max_depth or active or \
-                    (self.inline is not None and not self.inline(scope)):
+            deliberate = id(scope) in self.opaque or (self.inline is not None and not self.inline(scope))
+            if m is None or deliberate or len(self.stack) >= self.max_depth or active:
                 ordered = tuple(m[p] for p in scope.params() + scope.kwonly()) if m is not None else tuple(args)
-                res = lift_call(fv, list(ordered), [] if m is not None else kws)
+                if deliberate and m is not None:
+                    res = lift_call(fv, list(ordered), [])
+                else:
+                    # a limit of this executor (call that cannot be bound, recursion, inlining depth): the result is not understood
+                    why = "arguments not bound" if m is None else ("recursive call" if active else "inlining depth")
+                    self.notes_soft.append(f"{scope.qualname} not inlined at {fr.scope.qualname}:{getattr(node, 'lineno', 0)} ({why})")
+                    res = mk("call", mk("unk", "not inlined: " + why, scope.qualname), tuple(ordered), tuple(kws if m is None else ()))
                 self.event("call", fr, node, env, callee=fv, callee_scope=scope, args=args, kws=kws, bound=m, result=res, inlined=False)
                 self._log_call(env, fv, ordered)
                 return res
@@ -1756,6 +2053,31 @@ class Interp:
             res, sub_fr = self._call_scope(scope, m, defframe, site)
             self.event("call", fr, node, env, callee=fv, callee_scope=scope, args=args, kws=kws, bound=m, result=res, inlined=True, subframe=sub_fr.id)
             return res
+        if fv.k == "cls":
+            # instance of a plain repository class: a fresh object (identified by the creation site); __init__ runs on it
+            csc = self.classes[fv.key]
+            site = (getattr(node, "lineno", 0), getattr(node, "col_offset", 0))
+            obj = mk("obj", csc.qualname, fr.ctxkey + (site,))
+            init = _method(csc, "__init__")
+            if init is not None:
+                r = self.apply(self.fn_term(init), [obj] + list(args), kws, node, env, fr)
+                if r.k == "call":
+                    return mk("unk", "constructor not executed", csc.qualname)
+            elif args or kws:
+                return mk("unk", "constructor arguments without __init__", csc.qualname)
+            return obj
+        if fv.k == "bound":
+            return self.apply(fv.a[1], [fv.a[0]] + list(args), kws, node, env, fr)
+        if fv.k == "obj":
+            call = _method(self._class_of(fv), "__call__") if self._class_of(fv) is not None else None
+            if call is not None:
+                return self.apply(self.fn_term(call), [fv] + list(args), kws, node, env, fr)
+        if fv.k == "partial":
+            # functools.partial: the frozen arguments were evaluated where the partial object was made (early binding)
+            f0, pa, pk = fv.a
+            merged = dict(pk)
+            merged.update(dict(kws))
+            return self.apply(f0, list(pa) + list(args), list(merged.items()), node, env, fr)
         if fv.k == "ntctor":
             fields = list(fv.a[1])
             m = dict(zip(fields, args))
@@ -1770,38 +2092,74 @@ class Interp:
             r = self.external(fv.a[0], args, kws, node, env, fr)
             if r is not None:
                 return r
+        if fv.k == "attr" and fv.a[1] in _ARRAY_METHODS and fv.a[0].k not in ("ext", "mod", "dict", "rec"):
+            # a method of an array value: the function of the same name applied to it, or a value this executor has no model for
+            # (never `some opaque function of the program`)
+            r = self.external("numpy." + fv.a[1], [fv.a[0]] + list(args), kws, node, env, fr) if fv.a[1] in _ARRAY_METHODS_AS_FUNCTIONS else None
+            if r is not None:
+                return r
+            res = lift_call(mk("unk", "array method", fv.a[1]), [fv.a[0]] + list(args), kws)
+            self.event("call", fr, node, env, callee=fv, callee_scope=None, args=args, kws=kws, bound=None, result=res, inlined=False)
+            return res
+        if fv.k == "attr" and fv.a[1] == "get" and fv.a[0].k == "dict" and 1 <= len(args) <= 2 and not kws:
+            return dict_lookup(fv.a[0], args[0], args[1] if len(args) == 2 else NONE)
         res = lift_call(fv, args, kws)
         self.event("call", fr, node, env, callee=fv, callee_scope=None, args=args, kws=kws, bound=None, result=res, inlined=False)
         self._log_call(env, fv, tuple(args))
         return res
 
     def _log_call(self, env, fv, args):
-        if all(a.k != "ite" for a in args) and fv.k != "ite":
+        if fv.k != "ite":
             env.log[("called", fv.key) + tuple(a.key for a in args)] = TRUE
 
     def external(self, name, args, kws, node, env, fr):
         last = name.split(".")[-1]
         n = len(args)
         kw = dict(kws)
+        if last == "partial" and n >= 1 and name.split(".")[0] in ("functools", "partial"):
+            return lift(lambda f0: mk("partial", f0, tuple(args[1:]), tuple(kws)), args[0])
         if last == "clip" and n >= 1 and n + len(kw) == 3:
             lo = args[1] if n > 1 else kw.get("a_min", kw.get("min"))
             hi = args[2] if n > 2 else kw.get("a_max", kw.get("max"))
             if lo is not None and hi is not None:
-                return clamp(args[0], lo, hi)
+                return clip_(args[0], lo, hi)
         if last == "stack" and n == 1 and set(kw) == {"axis"} and args[0].k in ("tup", "list"):
             ax = const_of(kw["axis"])
             if ax in (1, -1):
                 return mk("colstack", args[0].a[0])
             if ax == 0:
                 return mk("rowstack", args[0].a[0])
+        if last == "bool" and n == 1 and not kws:
+            return truth(args[0])
+        if last in _ROOT_FINDERS and n == 3 and set(kw) <= {"args", "full_output", "xtol", "rtol", "maxiter", "disp"}:
+            # a bracketing root finder: some scalar of the bracket [a, b] (what it is a root of is not decided here)
+            fo = kw.get("full_output", FALSE)
+            if fo.k == "const":
+                extra = tuple((k, v) for (k, v) in kws if k != "full_output")
+                r = lift(lambda f0, a0, b0: mk("root", f0, a0, b0, extra), args[0], args[1], args[2])
+                return mk("tup", (r, mk("opq", "root finder report", r.key))) if fo.a[0] else r
+        if last == "setattr" and n == 3 and not kws and args[1].k == "const" and isinstance(args[1].a[0], str) and args[0].k != "ite":
+            env.vars[(args[0].key, args[1].a[0])] = args[2]
+            self.event("setattr", fr, node, env, base=args[0], attr=args[1].a[0], value=args[2])
+            return NONE
+        if last == "getattr" and n in (2, 3) and not kws and args[1].k == "const" and isinstance(args[1].a[0], str):
+            return self.attr(args[0], args[1].a[0], env)
         if last in ("logical_or", "logical_and") and n == 2 and not kws:
             return or_(args) if last == "logical_or" else and_(args)
         if last == "logical_not" and n == 1 and not kws:
             return not_(args[0])
-        if last == "where" and n == 3 and not kws:
+        if last == "cond" and n >= 3 and not kws and name.split(".")[0] in ("jax", "lax"):
+            # jax.lax.cond(pred, true_fun, false_fun, *operands)
+            c = _atomic(truth(args[0]))
+            ops = list(args[3:])
+            return ite(c, self.apply(args[1], ops, [], node, env.copy([(c, True)]), fr), self.apply(args[2], ops, [], node, env.copy([(c, False)]), fr))
+        if last in ("where", "select") and n == 3 and not kws:
             # elementwise selection: every component is a component of one of the two operands (exact for scalars; for box
             # membership a componentwise mixture of two box points is a box point)
-            return ite(_atomic(truth(args[0])), args[1], args[2])
+            def sel(c, a, b):
+                r = _where_minmax(truth(c), a, b)
+                return r if r is not None else ite(_atomic(truth(c)), a, b)
+            return lift(sel, args[0], args[1], args[2])
         if kws and last not in ("norm",):
             return None
         if last in ("minimum", "min") and n == 2:
@@ -1809,7 +2167,7 @@ class Interp:
         if last in ("maximum", "max") and n == 2:
             return max_(args[0], args[1])
         if last == "clip" and n == 3:
-            return clamp(args[0], args[1], args[2])
+            return clip_(args[0], args[1], args[2])
         if last == "norm" and n == 1 and not kws:
             return norm_(args[0])
         if last == "norm" and ((n == 2 and not kws and const_of(args[1]) == 2) or
@@ -1819,14 +2177,26 @@ class Interp:
             return sqrt_(args[0])
         if last in ("abs", "absolute", "fabs") and n == 1:
             return lift(lambda a: mk("abs", a), args[0])
-        if last == "dot" and n == 2:
+        if last in ("dot", "vdot", "inner") and n == 2:
             return dot(args[0], args[1])
+        if last == "square" and n == 1:
+            return power(args[0], const(2))
+        if last == "sum" and n == 1 and not kws:
+            # sum(v*v) == v@v  (the summand is the elementwise square of one vector)
+            def ssum(x):
+                r = _square_root_poly(x) if is_num(x) and x.k == "num" else None
+                return dot(r, r) if r is not None else mk("call", mk("ext", name), (x,), ())
+            return lift(ssum, args[0])
         if last in ("vstack", "row_stack") and n == 1 and args[0].k in ("tup", "list"):
             return mk("rowstack", args[0].a[0])
         if last in ("array", "asarray") and n == 1 and args[0].k == "list" and len(args[0].a[0]) == 2:
             return mk("rowstack", args[0].a[0])
         if last == "transpose" and n == 1 and args[0].k == "rowstack":
             return mk("colstack", args[0].a[0])
+        if last == "transpose" and n == 1 and not kws:
+            return self.attr(args[0], "T", env)
+        if last in ("copy", "astype") and n >= 1:
+            return args[0]
         if last == "column_stack" and n == 1:
             return lift(lambda a: mk("colstack", a.a[0]) if a.k in ("tup", "list") else mk("call", mk("ext", name), (a,), ()), args[0])
         if last in ("array", "asarray", "float", "float64", "float_") and n == 1:
@@ -1836,6 +2206,109 @@ class Interp:
         if last in ("isinstance", "callable", "len", "range", "deque", "exit", "RuntimeError", "ValueError"):
             return None
         return None
+
+
+def _where_minmax(c, a, b):
+    """Elementwise selections that are a minimum / maximum (operands are single cases):
+         where(v > B, B, v) == minimum(v, B)          where(v < B, B, v) == maximum(v, B)          (and the mirrored tests / swapped branches)
+         where(v < lo, lo, minimum(v, hi)) == maximum(lo, minimum(v, hi))   (lo <= hi assumed), likewise for the upper side;
+    maximum(lo, minimum(v, hi)) is then recognised as clamp(v, lo, hi) by max_ / minimum."""
+    if c.k == "not":
+        c, a, b = c.a[0], b, a
+    if c.k != "cmp" or c.a[0] not in ("lt", "le"):
+        return None
+    l, r = c.a[1], c.a[2]                       # l < r  (or <=): when true the result is a
+    for (v, B, v_is_small) in ((l, r, True), (r, l, False)):
+        # v_is_small: the test says v is below B
+        if a.key == B.key and b.key == v.key:
+            return max_(v, B) if v_is_small else minimum(v, B)        # below the bound -> the bound : maximum
+        if a.key == v.key and b.key == B.key:
+            return minimum(v, B) if v_is_small else max_(v, B)        # below the bound -> v itself : minimum
+        for (bound_branch, other, test_true) in ((a, b, True), (b, a, False)):
+            if bound_branch.key != B.key or other.k not in ("min", "max"):
+                continue
+            if v.key not in (other.a[0][0].key, other.a[0][1].key):
+                continue
+            below = v_is_small == test_true     # the bound is chosen when v is below it
+            if below and other.k == "min":
+                return max_(B, other)
+            if not below and other.k == "max":
+                return minimum(B, other)
+    return None
+
+
+def _square_root_poly(x):
+    """x == L*L for a polynomial L that is linear in its atoms -> the term L, else None"""
+    from math import isqrt
+    p = poly(x)
+    lin = {}
+    for m, c in p.t.items():
+        if len(m) == 1 and m[0][1] == 2:
+            if c <= 0:
+                return None
+            c = Fraction(c)
+            rn, rd = isqrt(c.numerator), isqrt(c.denominator)
+            if rn * rn != c.numerator or rd * rd != c.denominator:
+                return None
+            lin[m[0][0]] = Fraction(rn, rd)
+    if not lin:
+        return None
+    keys = sorted(lin)
+    # signs relative to the first atom from the cross terms
+    first = keys[0]
+    for k in keys[1:]:
+        m = tuple(sorted(((first, 1), (k, 1))))
+        c = p.t.get(m, 0)
+        if c < 0:
+            lin[k] = -lin[k]
+    L = Poly()
+    for k, c in lin.items():
+        L = L + Poly({((k, 1),): c})
+    if not (L * L - p).is_zero():
+        return None
+    return num(L)
+
+
+def dict_lookup(d, key, default):
+    """d[key] / d.get(key, default) of a dict display: a decision list over the keys (boolean keys: on the truth value of the key
+    expression; other constant keys: on equality).  A key that may be missing without a default gives an unknown."""
+    def f(k):
+        entries = list(d.a[0])
+        miss = default if default is not None else mk("unk", "key not in dict", k.key)
+        ck = k.a[0] if k.k == "const" else const_of(k)
+        res = miss
+        if all(kk is TRUE or kk is FALSE for (kk, _) in entries):
+            if k.k in BOOL_KINDS or (k.k == "const" and isinstance(k.a[0], bool)):
+                t = next((v for (kk, v) in entries if kk is TRUE), miss)
+                e = next((v for (kk, v) in entries if kk is FALSE), miss)
+                return ite(k, t, e)
+            return mk("unk", "dict with boolean keys indexed by a non-boolean", k.key)
+        for (kk, v) in reversed(entries):
+            c = cmp_("eq", k, kk)
+            res = ite(c, v, res) if c.k in BOOL_KINDS + ("const",) else mk("unk", "dict key comparison", k.key)
+        return res
+    return lift(f, key)
+
+
+def _plain_class(csc):
+    """A class this executor can instantiate: no base classes (other than object), no decorators, no metaclass; its methods are plain
+    functions (no decorators: no properties, static or class methods)."""
+    n = csc.node
+    if not isinstance(n, ast.ClassDef) or n.decorator_list or n.keywords:
+        return False
+    if any(not (isinstance(b, ast.Name) and b.id == "object") for b in n.bases):
+        return False
+    for ch in csc.children:
+        if ch.kind == "function" and getattr(ch.node, "decorator_list", None):
+            return False
+    return True
+
+
+def _method(csc, name):
+    for ch in csc.children:
+        if ch.kind == "function" and ch.name == name:
+            return ch
+    return None
 
 
 def _crc(x):
@@ -1889,6 +2362,12 @@ def _box_generalize(cases, label, name, own=None, conds=None):
     return None
 
 
+_ROOT_FINDERS = {"brentq", "brenth", "bisect", "ridder", "toms748"}
+_ARRAY_METHODS_AS_FUNCTIONS = {"clip", "dot", "transpose", "copy", "astype"}
+_ARRAY_METHODS = _ARRAY_METHODS_AS_FUNCTIONS | {
+    "sum", "prod", "mean", "min", "max", "argmin", "argmax", "reshape", "ravel", "flatten", "squeeze", "take", "item", "tolist", "fill",
+    "cumsum", "cumprod", "round", "conj", "real", "imag", "all", "any", "nonzero", "repeat", "swapaxes", "set", "add", "multiply",
+    "at", "block_until_ready", "view", "sort", "argsort", "std", "var", "ptp", "trace", "diagonal", "compress", "put", "searchsorted"}
 _MUTATORS = {"append", "appendleft", "extend", "update", "pop", "popleft", "popitem", "clear", "insert", "remove", "setdefault", "sort",
              "reverse", "add", "discard"}
 
